@@ -37,6 +37,9 @@ func randAtom(r *rand.Rand, depth int) string {
 	case 8:
 		return pick(r, []string{"10s", "1h30m", "5µ", "1w", "0s", "3s7µ", "1ms500µ", randCompositeDuration(r)})
 	case 9:
+		if r.Intn(4) == 0 {
+			return pick(r, []string{"-1", "+1", "-1.0"}) + " * " + randAtom(r, depth+1)
+		}
 		return "-" + randAtom(r, depth+1)
 	case 10:
 		return "+" + randAtom(r, depth+1)
@@ -100,6 +103,15 @@ func genParseExpr(r *rand.Rand, n int, emit func(args ...string)) {
 	none := map[string]interface{}{}
 	for _, s := range []string{"", "a", "a + b", "a + b * c", "a * b + c", "(a + b) * c", "a = 1 AND b = 2 OR c = 3", "a OR b AND c", "b / -a", "-a * b", "- - a", "-(-a)", "-1", "- 1", "-9223372036854775808", "-9223372036854775809", "-18446744073709551616", "a =~ /x/", "a =~ b", "a !~ /x", "a =~ /[/", "f()", "f(", "f(a,)", "f(a b)", "f (a)", "now() - 1h", "a.b.c.d", "*::tag", "DISTINCT", "1.5.2", "10s / 0.5", "-1.0", "-0.0", "- .5", "+a", "a AND", "AND", ")", "(", "(a", "a)", "1 2", "'x' 'y'", "a::", "$p", "$", "a = $p", "a =~ $r", "\"a\"(x)", "1e5", "99999999999999999999999999999999999999999999999999999999999999999999999999999999999999999999999999999999999999999999999999999999999999999999999999999999999999999999999999999999999999999999999999999999999999999999999999999999999999999999999999999999999999999999999999999999999999999999999999999999999999999999999.0"} {
 		emit(exprCase(s, none)...)
+	}
+	// a written `-1 * x` is the same tree as the parser's desugaring of `-x`: every kind of right operand,
+	// in every operand position (round-3 seeded change C03-3 printed every such node as `-x`: `-1 * -2` came
+	// out as `--2`, a comment)
+	for _, x := range []string{"-2", "2", "9223372036854775809", "9223372036854775808", "x", "(x)", "f(x)", "-x", "1.5", "-1.5", "10s", "-5m", "'x'", "true", "/r/"} {
+		m := "-1 * " + x
+		for _, t := range []string{m, "a - " + m, "x + " + m + " > 0 AND y", "now() - " + m, "a * " + m, m + " * b", "a / " + m + " + c", "(" + m + ")", "f(" + m + ")", "1 * " + m, "+1 * " + x, "a % +1 * " + x} {
+			emit(exprCase(t, none)...)
+		}
 	}
 	// exhaustive chains over all spellings for k<=2 (atoms a,b,c; regex operators get a regex operand)
 	atomFor := func(op string, name string) string {
